@@ -79,7 +79,7 @@ fn unsigned_arithmetic(cx: &mut Ctx, src: &sm::Src) {
     let rule = "C19.N2";
     cx.rule(rule, "unsigned arithmetic: no `-` on usize widths/lengths without saturating_sub / checked ops / a dominating comparison; `cmp::max(0, <unsigned>)` is a stated-belief contradiction (an unsigned value is never below 0: the author believed the subtraction could go negative); quantities are parsed with checked i32 arithmetic");
     cx.floor(rule, 4);
-    let t = sm::tsc(&src.file);
+    let t = sm::tsx(&src.file);
     if t.contains("cmp::max(0,") {
         cx.fail(rule, &format!("{}/max-zero-unsigned", rule), &src.rel, "`cmp::max(0, x)` on an unsigned expression: the subtraction inside underflows before max() can help (width - len panics when the value is wider than the field)");
     } else {
@@ -124,7 +124,7 @@ fn tables(cx: &mut Ctx, src: &sm::Src) {
     let rule = "C19.T1";
     cx.rule(rule, "flag characters `# 0 - space +` map to ALTERNATE_FORM, ZERO_PAD, LEFT_ADJUST, BLANK_SIGN, SIGN_CHAR and nothing else is a flag; conversion characters d i u o x X e E f F g G c r s b a map to their types (case carried for x/e/f/g) and every other character is UnsupportedFormatChar at its own index; length modifiers h l L: at most one is skipped; `%c` ignores the specifier's precision");
     cx.floor(rule, 25);
-    let t = sm::tsc(&src.file);
+    let t = sm::tsx(&src.file);
     let flags: BTreeMap<char, &str> = [('#', "ALTERNATE_FORM"), ('0', "ZERO_PAD"), ('-', "LEFT_ADJUST"), (' ', "BLANK_SIGN"), ('+', "SIGN_CHAR")].into_iter().collect();
     let mut got_flags: BTreeMap<char, String> = BTreeMap::new();
     let mut got_types: BTreeMap<char, String> = BTreeMap::new();
@@ -186,7 +186,7 @@ fn tables(cx: &mut Ctx, src: &sm::Src) {
     }
     // consume_length: exactly one optional modifier
     match src.free_fns("consume_length").into_iter().next() {
-        Some(f) if sm::tsc(&f.block) == "{ifletSome(&(_,c))=iter.peek(){letc=c.into();ifc=='h'||c=='l'||c=='L'{iter.next().unwrap();}}}" => cx.ok(rule, "consume_length skips at most one of h / l / L"),
+        Some(f) if sm::tsx(&f.block) == "{ifletSome(&(_,c))=iter.peek(){letc=c.into();ifc=='h'||c=='l'||c=='L'{iter.next().unwrap();}}}" => cx.ok(rule, "consume_length skips at most one of h / l / L"),
         Some(f) => cx.fail(rule, &format!("{}/length-modifier", rule), &src.loc(f), "consume_length does not skip exactly one optional h / l / L (Python rejects `%lld` as an unsupported format character)"),
         None => cx.anchor_missing(rule, "consume_length"),
     }
@@ -208,7 +208,7 @@ fn parse_order(cx: &mut Ctx, src: &sm::Src) {
     } else {
         cx.fail(rule, &format!("{}/order", rule), &src.loc(m), "CFormatSpec::parse does not read key, flags, width, precision, length modifier, type in this order");
     }
-    let t = sm::tsc(&src.file);
+    let t = sm::tsx(&src.file);
     for (k, frag) in [
         ("percent-str", "ifsecond=='%'{iter.next().unwrap();literal.push('%');continue;}"),
         ("percent-bytes", "ifsecond==b'%'{iter.next().unwrap();literal.push(b'%');continue;}"),
@@ -235,7 +235,7 @@ fn padding(cx: &mut Ctx, src: &sm::Src) {
     let rule = "C19.A1";
     cx.rule(rule, "padding: fill_string puts the text before the fill iff LEFT_ADJUST; with ZERO_PAD, format_number and format_float emit sign and base prefix BEFORE the zero fill, count them in the width, and LEFT_ADJUST turns the fill character into a space; precision pads integers with zeros on the left and truncates strings by characters");
     cx.floor(rule, 5);
-    let t = sm::tsc(&src.file);
+    let t = sm::tsx(&src.file);
     let checks = [
         ("fill-side", "if!fill_string.is_empty(){ifself.flags.contains(CConversionFlags::LEFT_ADJUST){format!(\"{string}{fill_string}\")}else{format!(\"{fill_string}{string}\")}}else{string}", "fill_string: text then fill iff LEFT_ADJUST"),
         ("fill-count", "letwidth=match&self.min_field_width{Some(CFormatQuantity::Amount(width))=>cmp::max(width,&num_chars),_=>&num_chars,};letfill_chars_needed=width.saturating_sub(num_chars);", "fill count = max(width, chars) - chars with chars counted in characters (+ prefix)"),
